@@ -143,6 +143,8 @@ pub fn run_case(case: &str) -> String {
         return r;
     }
     if let Some(r) = g_srvsafe::run(op, &args) {
+        return r;
+    }
     if let Some(r) = g_srvtsig::run(op, &args) {
         return r;
     }
